@@ -1468,4 +1468,243 @@ theorem mapM_comp_ok {α β γ : Type} (f : α → R β) (g : β → R γ) (ts :
             have := (ih' ys).1 hx
             simp [this]
 
+
+/-! ### index invariants of built trees, decidable well-formedness, entry points -/
+
+theorem envWFb_iff (e : Env) : envWFb e = true ↔ EnvWF e := by
+  simp [envWFb, EnvWF, List.all_eq_true]
+
+theorem shiftTime_indexOk (steps : Nat) (t : OpTree) : ∀ t', t.indexOk = true → shiftTime steps t = .ok t' →
+    t'.indexOk = true := by
+  induction t with
+  | leaf l =>
+    intro t' hok h
+    cases l with
+    | var subs md ti ii =>
+      simp only [shiftTime] at h
+      split at h
+      · cases h
+      · split at h
+        · cases h
+        · cases h
+          simp only [OpTree.indexOk, Bool.and_eq_true, decide_eq_true_eq] at hok ⊢
+          omega
+    | scalar c => simp only [shiftTime] at h; cases h; rfl
+    | dense v => simp only [shiftTime] at h; cases h; rfl
+    | sparse m => simp only [shiftTime] at h; cases h; rfl
+    | proj s => simp only [shiftTime] at h; cases h; rfl
+    | td id tt => simp only [shiftTime] at h; split at h <;> cases h; rfl
+  | projList ps => intro t' _ h; simp only [shiftTime] at h; cases h; rfl
+  | bin op a b iha ihb =>
+    intro t' hok h
+    simp only [OpTree.indexOk, Bool.and_eq_true] at hok
+    simp only [shiftTime] at h
+    cases h1 : shiftTime steps a with
+    | error er => simp [h1] at h
+    | ok a' =>
+      cases h2 : shiftTime steps b with
+      | error er => simp [h1, h2] at h
+      | ok b' =>
+        simp only [h1, h2, bind_ok, pure_eq_ok] at h
+        cases h
+        simp only [OpTree.indexOk, iha a' hok.1 h1, ihb b' hok.2 h2, Bool.and_self]
+  | func1 f a iha =>
+    intro t' hok h
+    simp only [OpTree.indexOk] at hok
+    simp only [shiftTime] at h
+    cases h1 : shiftTime steps a with
+    | error er => simp [h1] at h
+    | ok a' =>
+      simp only [h1, bind_ok, pure_eq_ok] at h
+      cases h
+      simp only [OpTree.indexOk, iha a' hok h1]
+  | func2 f a b iha ihb =>
+    intro t' hok h
+    simp only [OpTree.indexOk, Bool.and_eq_true] at hok
+    simp only [shiftTime] at h
+    cases h1 : shiftTime steps a with
+    | error er => simp [h1] at h
+    | ok a' =>
+      cases h2 : shiftTime steps b with
+      | error er => simp [h1, h2] at h
+      | ok b' =>
+        simp only [h1, h2, bind_ok, pure_eq_ok] at h
+        cases h
+        simp only [OpTree.indexOk, iha a' hok.1 h1, ihb b' hok.2 h2, Bool.and_self]
+
+theorem shiftIter_indexOk (steps : Nat) (t : OpTree) : ∀ t', t.indexOk = true → shiftIter steps t = .ok t' →
+    t'.indexOk = true := by
+  induction t with
+  | leaf l =>
+    intro t' hok h
+    cases l with
+    | var subs md ti ii =>
+      simp only [shiftIter] at h
+      split at h
+      · cases h
+      · split at h
+        · cases h
+        · cases h
+          simp only [OpTree.indexOk, Bool.and_eq_true, decide_eq_true_eq] at hok ⊢
+          omega
+    | scalar c => simp only [shiftIter] at h; cases h; rfl
+    | dense v => simp only [shiftIter] at h; cases h; rfl
+    | sparse m => simp only [shiftIter] at h; cases h; rfl
+    | proj s => simp only [shiftIter] at h; cases h; rfl
+    | td id tt => simp only [shiftIter] at h; cases h; rfl
+  | projList ps => intro t' _ h; simp only [shiftIter] at h; cases h; rfl
+  | bin op a b iha ihb =>
+    intro t' hok h
+    simp only [OpTree.indexOk, Bool.and_eq_true] at hok
+    simp only [shiftIter] at h
+    cases h1 : shiftIter steps a with
+    | error er => simp [h1] at h
+    | ok a' =>
+      cases h2 : shiftIter steps b with
+      | error er => simp [h1, h2] at h
+      | ok b' =>
+        simp only [h1, h2, bind_ok, pure_eq_ok] at h
+        cases h
+        simp only [OpTree.indexOk, iha a' hok.1 h1, ihb b' hok.2 h2, Bool.and_self]
+  | func1 f a iha =>
+    intro t' hok h
+    simp only [OpTree.indexOk] at hok
+    simp only [shiftIter] at h
+    cases h1 : shiftIter steps a with
+    | error er => simp [h1] at h
+    | ok a' =>
+      simp only [h1, bind_ok, pure_eq_ok] at h
+      cases h
+      simp only [OpTree.indexOk, iha a' hok h1]
+  | func2 f a b iha ihb =>
+    intro t' hok h
+    simp only [OpTree.indexOk, Bool.and_eq_true] at hok
+    simp only [shiftIter] at h
+    cases h1 : shiftIter steps a with
+    | error er => simp [h1] at h
+    | ok a' =>
+      cases h2 : shiftIter steps b with
+      | error er => simp [h1, h2] at h
+      | ok b' =>
+        simp only [h1, h2, bind_ok, pure_eq_ok] at h
+        cases h
+        simp only [OpTree.indexOk, iha a' hok.1 h1, ihb b' hok.2 h2, Bool.and_self]
+
+theorem wrap_indexOk (r : Raw) : r.wrap.indexOk = true := by cases r <;> rfl
+
+theorem negTree_indexOk (t : OpTree) (h : t.indexOk = true) : (negTree t).indexOk = true := by
+  unfold negTree
+  split <;> first | rfl | simp [OpTree.indexOk, h]
+
+theorem build_indexOk' (p : PyExpr) : ∀ b, p.leavesOk = true → build p = .ok b → b.indexOk = true := by
+  induction p with
+  | tree t => intro b h hb; simp only [build] at hb; cases hb; exact h
+  | raw r => intro b _ hb; simp only [build] at hb; cases hb; rfl
+  | bin op x y ihx ihy =>
+    intro b h hb
+    simp only [PyExpr.leavesOk, Bool.and_eq_true] at h
+    simp only [build] at hb
+    cases hx : build x with
+    | error er => simp [hx] at hb
+    | ok bx =>
+      cases hy : build y with
+      | error er => simp [hx, hy] at hb
+      | ok by' =>
+        have ox := ihx bx h.1 hx
+        have oy := ihy by' h.2 hy
+        simp only [hx, hy, bind_ok] at hb
+        cases bx with
+        | tree s =>
+          cases by' with
+          | tree t =>
+            simp only [mkNode] at hb
+            split at hb
+            · cases hb
+            · simp only [bind_ok, pure_eq_ok] at hb; cases hb
+              simp only [Built.indexOk, OpTree.indexOk] at ox oy ⊢
+              simp [ox, oy]
+          | raw r =>
+            simp only [pure_eq_ok] at hb; cases hb
+            simp only [Built.indexOk, OpTree.indexOk] at ox ⊢
+            simp [ox, wrap_indexOk]
+        | raw r =>
+          cases by' with
+          | tree t =>
+            simp only [Built.indexOk] at oy
+            cases op <;> simp only [mkReverse] at hb
+            all_goals first
+              | (simp only [bind_ok, pure_eq_ok] at hb; cases hb; simp [Built.indexOk, OpTree.indexOk, oy, wrap_indexOk])
+              | (cases r <;> simp only [bind_ok, bind_err, pure_eq_ok] at hb <;> first | (cases hb; done) | (cases hb; simp [Built.indexOk, OpTree.indexOk, oy, wrap_indexOk]))
+          | raw r2 => cases hb
+  | neg x ih =>
+    intro b h hb
+    simp only [build] at hb
+    cases hx : build x with
+    | error er => simp [hx] at hb
+    | ok bx =>
+      have ox := ih bx h hx
+      simp only [hx, bind_ok] at hb
+      cases bx with
+      | tree t => simp only [pure_eq_ok] at hb; cases hb; exact negTree_indexOk t ox
+      | raw r => cases hb
+  | prevTime steps x ih =>
+    intro b h hb
+    simp only [build] at hb
+    cases hx : build x with
+    | error er => simp [hx] at hb
+    | ok bx =>
+      have ox := ih bx h hx
+      simp only [hx, bind_ok] at hb
+      cases bx with
+      | tree t =>
+        cases hs : shiftTime steps t with
+        | error er => simp [hs] at hb
+        | ok s => simp only [hs, bind_ok, pure_eq_ok] at hb; cases hb; exact shiftTime_indexOk steps t s ox hs
+      | raw r => cases hb
+  | prevIter steps x ih =>
+    intro b h hb
+    simp only [build] at hb
+    cases hx : build x with
+    | error er => simp [hx] at hb
+    | ok bx =>
+      have ox := ih bx h hx
+      simp only [hx, bind_ok] at hb
+      cases bx with
+      | tree t =>
+        cases hs : shiftIter steps t with
+        | error er => simp [hs] at hb
+        | ok s => simp only [hs, bind_ok, pure_eq_ok] at hb; cases hb; exact shiftIter_indexOk steps t s ox hs
+      | raw r => cases hb
+  | call1 f x ih =>
+    intro b h hb
+    simp only [build] at hb
+    cases hx : build x with
+    | error er => simp [hx] at hb
+    | ok bx =>
+      have ox := ih bx h hx
+      simp only [hx, bind_ok] at hb
+      cases bx with
+      | tree t => simp only [pure_eq_ok] at hb; cases hb; exact ox
+      | raw r => cases hb
+  | call2 f x y ihx ihy =>
+    intro b h hb
+    simp only [PyExpr.leavesOk, Bool.and_eq_true] at h
+    simp only [build] at hb
+    cases hx : build x with
+    | error er => simp [hx] at hb
+    | ok bx =>
+      cases hy : build y with
+      | error er => simp [hx, hy] at hb
+      | ok by' =>
+        have ox := ihx bx h.1 hx
+        have oy := ihy by' h.2 hy
+        simp only [hx, hy, bind_ok] at hb
+        cases bx <;> cases by' <;> simp only [pure_eq_ok] at hb <;> first | (cases hb; done) | skip
+        cases hb
+        simp only [Built.indexOk, OpTree.indexOk] at ox oy ⊢
+        simp [ox, oy]
+
+theorem finish_idem (N : Nat) (v w : Value) (h : finish N true v = .ok w) : finish N true w = .ok w := by
+  cases v <;> simp only [finish, if_true] at h <;> first | (cases h; rfl) | cases h
+
 end PorepyVerif.C02
